@@ -7,12 +7,19 @@
   (Model/Header.lean, Model/Envelope.lean), with ideal signatures
   (`jwsValid k s ↔ s.signer = k`) and the digest an explicit function `H` of
   the document's canonical content, injective where stated.
+
+  `namespace Src` (at the end) ties the containment model to the source:
+  `Header.contains` is proved equal, for all headers, to the definition that the
+  go2lean translator regenerates from /repo/head/header.go on every run
+  (Generated/HeaderSrc.lean).
 -/
 import GoblVerif.Spec.C09
 import GoblVerif.Proofs.Envelope
 import GoblVerif.Proofs.C09
 import GoblVerif.Generated.HeaderFacts
 import GoblVerif.Generated.EnvelopeFacts
+import GoblVerif.Generated.HeaderSrc
+import GoblVerif.Proofs.GoSemList
 
 namespace GoblVerif.Props.C09
 open GoblVerif GoblVerif.Spec.C09
@@ -463,5 +470,175 @@ theorem bulk_and_http_and_command_use_cli_verify :
     "cli.Verify(ctx, input, key)" ∈ Envelope.cmd_verify_returns := by decide
 
 end Expect
+
+/-! ## the model is the source
+
+`Generated/HeaderSrc.lean` is regenerated on every run from
+/repo/head/header.go by the go2lean translator (harness/cmd/extract/go2lean*.go,
+configuration headersrc.go): `(*Header).Contains` as one Lean definition, its
+seven loops, the flag-and-break searches and the comma-ok map lookup included.
+`Header`, `Stamp`, `Link` and `dsig.Digest` are mapped onto the records of
+Model/Header.lean (`struct_*_as_mapped` pins the Go declarations, the generated
+`example`s check the field types).  `src_Contains` proves, for ALL pairs of
+headers, that the regenerated definition equals `Header.contains`; the
+containment theorems of this file (characterisation, monotonicity, detection)
+and, through `Env.verify`, the verification theorems are therefore statements
+about the code as it stands on this run.  An edit of `Contains` changes the
+regenerated definition and `src_Contains` no longer closes; a helper it might
+call that is outside the translated subset makes `all_translated` fail.
+
+Trusted: the translator's reading of Go (header of Generated/HeaderSrc.lean);
+the assumptions `assumptions_as_reviewed` pins — `[]*Stamp` / `[]*Link` hold no
+nil (a nil entry makes the Go code panic: C14), `cbc.Meta` is an association
+list with distinct keys (the `range` over `h2.Meta` is shown order-independent
+in `src_Contains_map_order`, the lookups in `h.Meta` in `map_lookup_order`),
+`uuid.UUID.String` is the identity and `(*dsig.Digest).String` is `Digest.str`
+(its source text is pinned by `Expect.digest_string`). -/
+namespace Src
+open GoblVerif.Generated GoblVerif.GoSem
+
+theorem all_translated : HeaderSrc.untranslated = [] := by decide
+
+theorem translated_as_listed : HeaderSrc.translated = ["Header.Contains"] := by decide
+
+theorem struct_Header_as_mapped :
+    HeaderSrc.struct_Header = [("UUID", "uuid.UUID"), ("Digest", "*dsig.Digest"), ("Stamps", "[]*Stamp"),
+      ("Links", "[]*Link"), ("Tags", "[]string"), ("Meta", "cbc.Meta"), ("Notes", "string")] ∧
+    HeaderSrc.structLean_Header = ("GoblVerif.Header", ["uuid", "dig", "stamps", "links", "tags", "metas", "notes"]) ∧
+    HeaderSrc.structOmitted_Header = [] := by decide
+
+theorem struct_Stamp_as_mapped :
+    HeaderSrc.struct_Stamp = [("Provider", "cbc.Key"), ("Value", "string")] ∧
+    HeaderSrc.structLean_Stamp = ("GoblVerif.Stamp", ["prv", "val"]) ∧
+    HeaderSrc.structOmitted_Stamp = [] := by decide
+
+theorem struct_Link_as_mapped :
+    HeaderSrc.struct_Link = [("Key", "cbc.Key"), ("Title", "string"), ("Description", "string"),
+      ("MIME", "string"), ("URL", "string")] ∧
+    HeaderSrc.structLean_Link = ("GoblVerif.Link", ["key", "title", "description", "mime", "url"]) ∧
+    HeaderSrc.structOmitted_Link = [] := by decide
+
+theorem struct_Digest_as_mapped :
+    HeaderSrc.struct_dsig_Digest = [("Algorithm", "dsig.DigestAlgorithm"), ("Value", "string")] ∧
+    HeaderSrc.structLean_dsig_Digest = ("GoblVerif.Digest", ["alg", "val"]) ∧
+    HeaderSrc.structOmitted_dsig_Digest = [] := by decide
+
+/-- what the translation assumes beyond its general reading of Go -/
+theorem assumptions_as_reviewed :
+    HeaderSrc.nonNilElems = ["[]*Link", "[]*Stamp"] ∧
+    HeaderSrc.mapRanges = [("Header.Contains", "h2.Meta")] ∧
+    HeaderSrc.namedTypes = [] ∧
+    HeaderSrc.primitives = [("dsig.Digest.String", "GoblVerif.Digest.str ({0}.get!)"), ("uuid.UUID.String", "{0}")] ∧
+    HeaderSrc.natSubs = [] ∧ HeaderSrc.fuelChecks = [] := by decide
+
+/-- **`(*Header).Contains`, regenerated from the source, is the model's
+    `Header.contains`** — for every pair of headers -/
+theorem src_Contains (h h2 : Header) : HeaderSrc.Header_Contains h h2 = h.contains h2 := by
+  unfold HeaderSrc.Header_Contains
+  simp only [forIn_list_id, pure_bind]
+  simp only [Id.run, id_pure, forList_flag, forList_any, Bool.false_or]
+  rw [any_not_eq_not_all h2.stamps _ (fun s2 => h.stamps.any fun s => stampMatch s s2)
+        (by
+          intro x; unfold stampMatch; congr 1; funext s
+          by_cases h1 : s.prv = x.prv <;> by_cases h2 : s.val = x.val <;> simp [h1, h2]),
+      any_not_eq_not_all h2.links _ (fun l2 => h.links.any fun l => linkMatch l l2)
+        (by
+          intro x; unfold linkMatch; congr 1; funext s
+          by_cases h1 : s.key = x.key <;> by_cases h2 : s.url = x.url <;> simp [h1, h2]),
+      any_not_eq_not_all h2.tags _ (fun t2 => h.tags.any fun t => t == t2)
+        (by intro x; congr 1)]
+  have hm : (List.any h2.metas fun x => decide
+      (¬(List.lookup x.fst h.metas).isSome = true ∨ (List.lookup x.fst h.metas).getD "" ≠ x.snd))
+      = !(h2.metas.all fun kv => metaMatch h.metas kv) := by
+    generalize h2.metas = m
+    induction m with
+    | nil => rfl
+    | cons a l ih =>
+      simp only [List.any_cons, List.all_cons, ih, metaMatch]
+      cases hl : List.lookup a.1 h.metas with
+      | none => simp
+      | some v => by_cases hv : v = a.2 <;> simp [hv]
+  rw [hm]
+  unfold Header.contains digContains
+  generalize (h2.stamps.all fun s2 => h.stamps.any fun s => stampMatch s s2) = b1
+  generalize (h2.links.all fun l2 => h.links.any fun l => linkMatch l l2) = b2
+  generalize (h2.tags.all fun t2 => h.tags.any fun t => t == t2) = b3
+  generalize (List.all h2.metas fun kv => metaMatch h.metas kv) = b4
+  by_cases hu : h.uuid = h2.uuid
+  · simp only [hu, ne_eq, not_true_eq_false, if_false, beq_self_eq_true, Bool.true_and]
+    cases hd2 : h2.dig with
+    | none =>
+      simp only [Option.isSome_none, Bool.false_eq_true, false_and, if_false, Bool.true_and]
+      cases b1 <;> cases b2 <;> cases b3 <;> cases b4 <;> by_cases hn : h2.notes = "" <;>
+        by_cases hn2 : h2.notes = h.notes <;> simp [hn, hn2]
+    | some x2 =>
+      cases hd : h.dig with
+      | none => simp
+      | some x =>
+        by_cases hs : x.str = x2.str
+        · simp only [Option.isSome_some, Option.isNone_some, Bool.false_eq_true, Option.get!_some, hs,
+            not_true_eq_false, or_self, and_false, if_false, beq_self_eq_true, Bool.true_and]
+          cases b1 <;> cases b2 <;> cases b3 <;> cases b4 <;> by_cases hn : h2.notes = "" <;>
+            by_cases hn2 : h2.notes = h.notes <;> simp [hn, hn2]
+        · simp [hs]
+  · simp [hu]
+
+/-- the obligation of `mapRanges`: Go ranges over `h2.Meta` in an unspecified
+    order, the translation in list order — the answer is the same for every order -/
+theorem src_Contains_map_order (h h2 : Header) (m' : Meta) (hp : h2.metas.Perm m') :
+    HeaderSrc.Header_Contains h { h2 with metas := m' } = HeaderSrc.Header_Contains h h2 := by
+  rw [src_Contains, src_Contains]
+  unfold Header.contains
+  simp only
+  rw [hp.all_eq]
+
+/-- … and the lookups in `h.Meta` do not depend on how its association list is
+    ordered (distinct keys: `Header.WF`, the invariant of a Go map) -/
+theorem map_lookup_order (h h2 : Header) (m' : Meta) (hp : h.metas.Perm m') (hwf : h.WF) :
+    HeaderSrc.Header_Contains { h with metas := m' } h2 = HeaderSrc.Header_Contains h h2 := by
+  rw [src_Contains, src_Contains]
+  unfold Header.contains metaMatch
+  simp only
+  congr 3
+  funext kv
+  rw [lookup_perm hp hwf]
+
+/-! ### the theorems of this file, read off the regenerated code -/
+
+/-- the exact characterisation of containment, for the regenerated `Contains` -/
+theorem spec_of_the_source_Contains (h p : Header) : HeaderSrc.Header_Contains h p = true ↔
+    h.uuid = p.uuid ∧
+    (∀ d2, p.dig = some d2 → ∃ d, h.dig = some d ∧ d.str = d2.str) ∧
+    (∀ s2 ∈ p.stamps, ∃ s ∈ h.stamps, s.prv = s2.prv ∧ s.val = s2.val) ∧
+    (∀ l2 ∈ p.links, ∃ l ∈ h.links, l.key = l2.key ∧ l.url = l2.url) ∧
+    (∀ t ∈ p.tags, t ∈ h.tags) ∧
+    (∀ kv ∈ p.metas, h.metas.lookup kv.1 = some kv.2) ∧
+    (p.notes = "" ∨ p.notes = h.notes) := by
+  rw [src_Contains]; exact contains_iff h p
+
+/-- a header with a Go map for meta contains itself, in the regenerated code -/
+theorem spec_of_the_source_refl (h : Header) (hwf : h.WF) : HeaderSrc.Header_Contains h h = true := by
+  rw [src_Contains]; exact contains_refl h hwf
+
+/-- a stamp of the signed header that is missing or altered is detected by the regenerated code -/
+theorem spec_of_the_source_detects_stamp (h p : Header) (s2 : Stamp) (hs : s2 ∈ p.stamps)
+    (hne : ∀ s ∈ h.stamps, s.prv = s2.prv → s.val ≠ s2.val) : HeaderSrc.Header_Contains h p = false := by
+  rw [src_Contains]; exact detects_stamp h p s2 hs hne
+
+/-- … and so is a link -/
+theorem spec_of_the_source_detects_link (h p : Header) (l2 : Link) (hl : l2 ∈ p.links)
+    (hne : ∀ l ∈ h.links, l.key = l2.key → l.url ≠ l2.url) : HeaderSrc.Header_Contains h p = false := by
+  rw [src_Contains]; exact detects_link h p l2 hl hne
+
+/-- … and changed notes -/
+theorem spec_of_the_source_detects_notes (h p : Header) (hn : p.notes ≠ "") (hne : p.notes ≠ h.notes) :
+    HeaderSrc.Header_Contains h p = false := by
+  rw [src_Contains]; exact detects_notes h p hn hne
+
+example : HeaderSrc.Header_Contains (exHead.addStamp ⟨"prv-b", "v2"⟩) exHead = true ∧
+    HeaderSrc.Header_Contains exHead (exHead.addStamp ⟨"prv-b", "v2"⟩) = false ∧
+    HeaderSrc.Header_Contains (exHead.setNotes "other") (exHead.setNotes "signed") = false := by decide
+
+end Src
 
 end GoblVerif.Props.C09
